@@ -23,6 +23,8 @@ pub enum Ty {
     Bool,
     /// (defining module, blob name, field type)
     Blob(usize, String, Box<Ty>),
+    /// (defining module, enum name, payload type of variant `Ka`; `Kb` has none)
+    Enum(usize, String, Box<Ty>),
 }
 
 impl Ty {
@@ -41,6 +43,7 @@ impl Ty {
             Ty::Str => "str",
             Ty::Bool => "bool",
             Ty::Blob(..) => "blob",
+            Ty::Enum(..) => "enum",
         }
     }
     fn literal(&self, k: usize) -> String {
@@ -49,7 +52,7 @@ impl Ty {
             Ty::Float => format!("{}.5", k),
             Ty::Str => format!("\"s{}\"", k),
             Ty::Bool => (if k % 2 == 0 { "true" } else { "false" }).to_string(),
-            Ty::Blob(..) => unreachable!(),
+            Ty::Blob(..) | Ty::Enum(..) => unreachable!(),
         }
     }
     fn other_prim(&self) -> Ty {
@@ -58,7 +61,7 @@ impl Ty {
             Ty::Float => Ty::Bool,
             Ty::Str => Ty::Int,
             Ty::Bool => Ty::Float,
-            Ty::Blob(..) => Ty::Int,
+            Ty::Blob(..) | Ty::Enum(..) => Ty::Int,
         }
     }
 }
@@ -74,6 +77,8 @@ pub struct Global {
     /// the (module, global) whose value this global copies, if any
     pub copies: Option<(usize, String)>,
     pub is_type: bool,
+    /// a function of no arguments returning `ty`
+    pub is_fn: bool,
 }
 
 #[derive(Clone, Debug)]
@@ -123,6 +128,8 @@ pub struct UseSite {
     pub ty: Ty,
     /// for blob types: how the type is written in the multi-file form (e.g. `nb.Bq1`, `Zt`)
     pub ty_expr: String,
+    /// the target is a function and is called
+    pub call: bool,
 }
 
 #[derive(Clone, Debug)]
@@ -279,7 +286,11 @@ fn render_module(m: &Module, is_main: bool) -> String {
                 s.push_str(&format!("    u{}: {} = {} {{ f: {} }}\n", k, u.ty_expr, u.expr, field.literal(k)));
                 s.push_str(&format!("    w{}: {} = u{}.f\n", k, field.name(), k));
             }
-            t => s.push_str(&format!("    u{}: {} = {}\n", k, t.name(), u.expr)),
+            Ty::Enum(_, _, payload) => {
+                s.push_str(&format!("    u{}: {} = {}.Ka {}\n", k, u.ty_expr, u.expr, payload.literal(k)));
+                s.push_str(&format!("    w{}: {} = {}.Kb\n", k, u.ty_expr, u.expr));
+            }
+            t => s.push_str(&format!("    u{}: {} = {}{}\n", k, t.name(), u.expr, if u.call { "()" } else { "" })),
         }
     }
     for l in &m.raw_body {
@@ -305,9 +316,13 @@ fn render_flat(modules: &[Module]) -> String {
         for g in &m.globals {
             let n = flat_name(modules, mi, &g.name);
             if g.is_type {
-                if let Ty::Blob(_, _, f) = &g.ty {
-                    s.push_str(&format!("{} :: blob {{ f: {} }}\n", n, f.name()));
+                match &g.ty {
+                    Ty::Blob(_, _, f) => s.push_str(&format!("{} :: blob {{ f: {} }}\n", n, f.name())),
+                    Ty::Enum(_, _, p) => s.push_str(&format!("{} :: enum\n    Ka {},\n    Kb,\nend\n", n, p.name())),
+                    _ => {}
                 }
+            } else if g.is_fn {
+                s.push_str(&format!("{} :: fn -> {} do\n    ret {}\nend\n", n, g.ty.name(), g.lit.clone().unwrap_or_default()));
             } else if let Some((cm, cg)) = &g.copies {
                 s.push_str(&format!("{} :: {}\n", n, flat_name(modules, *cm, cg)));
             } else {
@@ -325,7 +340,11 @@ fn render_flat(modules: &[Module]) -> String {
                     s.push_str(&format!("    u{}: {} = {} {{ f: {} }}\n", k, r, r, field.literal(k)));
                     s.push_str(&format!("    w{}: {} = u{}.f\n", k, field.name(), k));
                 }
-                t => s.push_str(&format!("    u{}: {} = {}\n", k, t.name(), r)),
+                Ty::Enum(_, _, payload) => {
+                    s.push_str(&format!("    u{}: {} = {}.Ka {}\n", k, r, r, payload.literal(k)));
+                    s.push_str(&format!("    w{}: {} = {}.Kb\n", k, r, r));
+                }
+                t => s.push_str(&format!("    u{}: {} = {}{}\n", k, t.name(), r, if u.call { "()" } else { "" })),
             }
             k += 1;
         }
@@ -407,7 +426,7 @@ pub fn generate(seed: u64) -> Project {
             let kind = if modules[mi].rel == "main.sy" { "::" } else { *r.pick(&["::", "::", ":="]) };
             let lit = ty.literal(mi * 3 + gi);
             let init = format!("{} {} {}", name, kind, lit);
-            modules[mi].globals.push(Global { name: name.to_string(), ty, init, lit: Some(lit), copies: None, is_type: false });
+            modules[mi].globals.push(Global { name: name.to_string(), ty, init, lit: Some(lit), copies: None, is_type: false, is_fn: false });
         }
         if r.chance(1, 3) {
             let bname = format!("Bq{}", r.below(2));
@@ -420,8 +439,32 @@ pub fn generate(seed: u64) -> Project {
                 lit: None,
                 copies: None,
                 is_type: true,
+                is_fn: false,
             });
             features.insert("blob_type");
+        }
+        if r.chance(1, 4) {
+            let ename = format!("Eq{}", r.below(2));
+            let pty = Ty::prim(r.below(4));
+            let init = format!("{} :: enum\n    Ka {},\n    Kb,\nend", ename, pty.name());
+            modules[mi].globals.push(Global {
+                name: ename.clone(),
+                ty: Ty::Enum(mi, ename, Box::new(pty)),
+                init,
+                lit: None,
+                copies: None,
+                is_type: true,
+                is_fn: false,
+            });
+            features.insert("enum_type");
+        }
+        if r.chance(1, 3) {
+            let fname = format!("qf{}", r.below(2));
+            let rty = Ty::prim(r.below(4) + mi);
+            let lit = rty.literal(mi + 5);
+            let init = format!("{} :: fn -> {} do\n    ret {}\nend", fname, rty.name(), lit);
+            modules[mi].globals.push(Global { name: fname, ty: rty, init, lit: Some(lit), copies: None, is_type: false, is_fn: true });
+            features.insert("function_global");
         }
     }
 
@@ -502,7 +545,7 @@ pub fn generate(seed: u64) -> Project {
             continue;
         }
         let (ns, t) = r.pick(&cands).clone();
-        let gs: Vec<Global> = modules[t].globals.iter().filter(|g| !g.is_type && g.copies.is_none()).cloned().collect();
+        let gs: Vec<Global> = modules[t].globals.iter().filter(|g| !g.is_type && !g.is_fn && g.copies.is_none()).cloned().collect();
         if gs.is_empty() {
             continue;
         }
@@ -515,6 +558,7 @@ pub fn generate(seed: u64) -> Project {
             lit: None,
             copies: Some((t, g.name.clone())),
             is_type: false,
+            is_fn: false,
         });
         features.insert("copy_initialiser");
     }
@@ -530,9 +574,9 @@ pub fn generate(seed: u64) -> Project {
             }
             let g = r.pick(&gs).clone();
             if g.is_type {
-                uses.push(UseSite { expr: format!("{}.{}", ns, g.name), target: (*t, g.name.clone()), ty: g.ty.clone(), ty_expr: format!("{}.{}", ns, g.name) });
+                uses.push(UseSite { expr: format!("{}.{}", ns, g.name), target: (*t, g.name.clone()), ty: g.ty.clone(), ty_expr: format!("{}.{}", ns, g.name), call: false });
             } else {
-                uses.push(UseSite { expr: format!("{}.{}", ns, g.name), target: (*t, g.name.clone()), ty: g.ty.clone(), ty_expr: String::new() });
+                uses.push(UseSite { expr: format!("{}.{}", ns, g.name), target: (*t, g.name.clone()), ty: g.ty.clone(), ty_expr: String::new(), call: g.is_fn });
             }
             // chained access through a namespace the target imported itself
             if r.chance(1, 3) {
@@ -548,6 +592,7 @@ pub fn generate(seed: u64) -> Project {
                             target: (t2, g2.name.clone()),
                             ty: g2.ty.clone(),
                             ty_expr: format!("{}.{}.{}", ns, ns2, g2.name),
+                            call: g2.is_fn,
                         });
                         features.insert("chain_access");
                         if g2.is_type {
@@ -559,7 +604,7 @@ pub fn generate(seed: u64) -> Project {
         }
         for (name, (t, g)) in &b.names {
             let gl = modules[*t].globals.iter().find(|x| x.name == *g).unwrap().clone();
-            uses.push(UseSite { expr: name.clone(), target: (*t, g.clone()), ty: gl.ty.clone(), ty_expr: name.clone() });
+            uses.push(UseSite { expr: name.clone(), target: (*t, g.clone()), ty: gl.ty.clone(), ty_expr: name.clone(), call: gl.is_fn });
         }
         r.shuffle(&mut uses);
         modules[f].uses = uses;
@@ -689,8 +734,8 @@ pub fn generate(seed: u64) -> Project {
                 }
                 5 => {
                     // a use site annotated with the wrong type: the annotation must bite
-                    if let Some(u) = modules[f].uses.iter().find(|u| !matches!(u.ty, Ty::Blob(..))).cloned() {
-                        modules[f].raw_body.push(format!("t5: {} = {}", u.ty.other_prim().name(), u.expr));
+                    if let Some(u) = modules[f].uses.iter().find(|u| !matches!(u.ty, Ty::Blob(..) | Ty::Enum(..))).cloned() {
+                        modules[f].raw_body.push(format!("t5: {} = {}{}", u.ty.other_prim().name(), u.expr, if u.call { "()" } else { "" }));
                         twist = Some("wrong-type-annotation".into());
                         break 'outer;
                     }
@@ -715,7 +760,7 @@ pub fn generate(seed: u64) -> Project {
                     for i in modules[f].imports.clone().iter() {
                         if let ImportKind::From { items, .. } = &i.kind {
                             for (n, a) in items {
-                                if a.is_some() && !b.names.contains_key(n) && !b.ns.contains_key(n) && !n.starts_with('B') {
+                                if a.is_some() && !b.names.contains_key(n) && !b.ns.contains_key(n) && !n.starts_with('B') && !n.starts_with('E') {
                                     modules[f].raw_body.push(format!("t7 := {}", n));
                                     twist = Some("original-name-used-despite-alias".into());
                                     break 'outer;
